@@ -36,6 +36,13 @@ type c20Case struct {
 	Subjects int `json:"subjects,omitempty"`
 	// DrainMs > 0: the server's connection was opened with nats.DrainTimeout of that many ms
 	DrainMs int `json:"drain_ms,omitempty"`
+	// EarlyStop: Stop is called right after `go Serve()`, before Serve had time to subscribe
+	EarlyStop bool `json:"early_stop,omitempty"`
+	// ReplyKB: every reply is padded to that many KiB
+	ReplyKB int `json:"reply_kb,omitempty"`
+	// CloseAtReturn: the server's connection is closed as soon as Serve has returned (the replies of
+	// everything accepted must have been published by then; Close flushes what was published)
+	CloseAtReturn bool `json:"close_at_return,omitempty"`
 }
 
 func genC20(t *rapid.T) c20Case {
@@ -64,6 +71,12 @@ func genC20(t *rapid.T) c20Case {
 	if rapid.IntRange(0, 3).Draw(t, "pad?") == 0 {
 		c.PadKB = rapid.SampledFrom([]int{64, 200, 500}).Draw(t, "padkb")
 	}
+	if rapid.IntRange(0, 5).Draw(t, "early?") == 0 {
+		c.EarlyStop = true
+		c.StopAfter = 0
+	}
+	c.ReplyKB = rapid.SampledFrom([]int{0, 0, 0, 64, 256}).Draw(t, "replykb")
+	c.CloseAtReturn = !c.OwnConn && rapid.Bool().Draw(t, "closeAtReturn")
 	return c
 }
 
@@ -73,6 +86,16 @@ func classifyC20(c c20Case) ev.Class {
 	if len(c.Durations) > c.QueueLen+c.Workers {
 		labels = append(labels, "burst>queue+workers")
 		nt = true
+	}
+	if c.EarlyStop {
+		labels = append(labels, "stop-before-serve-subscribed")
+		nt = true
+	}
+	if c.CloseAtReturn {
+		labels = append(labels, "connection-closed-when-serve-returns")
+	}
+	if c.ReplyKB > 0 {
+		labels = append(labels, "big-replies")
 	}
 	if c.StopAfter > 0 && c.StopAfter < len(c.Durations) {
 		labels = append(labels, "stop-inside-burst")
@@ -128,6 +151,9 @@ func execC20Inner(c c20Case) *ev.Failure {
 					time.Sleep(time.Duration(d) * time.Millisecond)
 				}
 			}
+			if c.ReplyKB > 0 {
+				return "done:" + v + strings.Repeat("r", c.ReplyKB*1024), nil
+			}
 			return "done:" + v, nil
 		},
 		fire: func(ctx frugal.FContext, v string) error { return nil },
@@ -180,11 +206,13 @@ func execC20Inner(c c20Case) *ev.Failure {
 	srv := sb.Build()
 	served := make(chan error, 1)
 	go func() { served <- srv.Serve() }()
-	for i := 0; i < 2000 && sconn.NumSubscriptions() < len(subjects); i++ {
-		time.Sleep(200 * time.Microsecond)
-	}
-	if err := sconn.Flush(); err != nil {
-		return ev.Failf("harness:flush", "%v", err)
+	if !c.EarlyStop {
+		for i := 0; i < 2000 && sconn.NumSubscriptions() < len(subjects); i++ {
+			time.Sleep(200 * time.Microsecond)
+		}
+		if err := sconn.Flush(); err != nil {
+			return ev.Failf("harness:flush", "%v", err)
+		}
 	}
 	name := func(kind string, i, dur int) string { return fmt.Sprintf("%s%d:%d", kind, i, dur) }
 	publish := func(kind string, i, dur int) {
@@ -242,7 +270,11 @@ func execC20Inner(c c20Case) *ev.Failure {
 		atReturn[k] = v
 	}
 	mu.Unlock()
-	sconn.Flush()
+	if c.CloseAtReturn {
+		sconn.Close()
+	} else {
+		sconn.Flush()
+	}
 	rconn.Flush()
 	want := 0
 	for i := 0; i < c.StopAfter; i++ {
